@@ -8,6 +8,7 @@
    and the cursor = Some [] corner are decided by the correspondence check only (C13 is claimed partial there). *)
 From Coq Require Import NArith List Bool Sorted.
 From LC Require Import Query QueryProofs QueryOrderProofs.
+From LC Require Import QueryGroupProofs.
 Import ListNotations.
 Open Scope N_scope.
 
@@ -99,6 +100,36 @@ Theorem C13_pages_are_the_matching_txs :
     = filter (tx_pass fs block) (iter asc (filter (fun e => starts_with (te_key e) (tag :: raw)) db)).
 Proof. intros. apply pages_are_the_matching_entries; assumption. Qed.
 Print Assumptions C13_pages_are_the_matching_txs.
+
+(* grouped mode (group_by_transaction) of one get_transactions call: the loop consumes a prefix [taken] of the scanned
+   entries; the groups, flattened, are exactly the entries of that prefix which pass the filters, in scan order (so:
+   the grouped answer is the ungrouped one, grouped); every group is a non-empty run of entries of ONE transaction and
+   neighbouring groups belong to different transactions; there are at most [limit] groups; the loop stops before the
+   end of the scan only with [limit] groups and in front of an entry of another transaction (a transaction's run is
+   never cut by the page boundary); the cursor returned is the key of the last entry consumed (passing or not), so the
+   next call resumes exactly behind [taken]. *)
+Theorem C13_grouped_is_the_ungrouped_grouped :
+  forall tag raw al fs block asc limit cursor (db : list tentry) gs lk,
+    get_txs_grouped tag raw al fs block asc limit cursor db = (gs, lk) ->
+    exists taken rest,
+      scan te_key tag raw al asc cursor db = taken ++ rest /\
+      flat gs = filter (tx_pass fs block) taken /\
+      wf_groups gs /\ (length gs <= limit)%nat /\
+      (rest = [] \/ (length gs = limit /\ exists e r, rest = e :: r /\ last_tx_of gs <> Some (te_tx e))) /\
+      lk = match rev taken with e :: _ => te_key e | [] => [] end.
+Proof.
+  intros tag raw al fs block asc limit cursor db gs lk H. unfold get_txs_grouped in H.
+  destruct (group_loop_spec fs block limit _ _ _ _ _ H) as (taken & rest & A & B & C & D & E & F).
+  exists taken, rest. split; [exact A|]. split; [exact B|]. split; [apply C; constructor|]. split; [apply D; apply le_0_n|]. split; [exact E | exact F].
+Qed.
+Print Assumptions C13_grouped_is_the_ungrouped_grouped.
+
+(* non-vacuity: five entries of transactions 7 7 8 8 7, limit 2: the page holds the runs of 7 and 8 and stops in front of the second run of 7 *)
+Example C13_example_grouped :
+  let e k t := mkTE [96; 5; 0;0;0;0;0;0;0;1; 0;0;0;k; 0;0;0;0; 1] t in
+  fst (get_txs_grouped 96 [5] 0 None None true 2 None [e 1 7; e 2 7; e 3 8; e 4 8; e 5 7])
+  = [(7, [e 1 7; e 2 7]); (8, [e 3 8; e 4 8])].
+Proof. vm_compute. reflexivity. Qed.
 
 (* non-vacuity, descending: a store with a foreign entry on either side, limit 2, two pages in reverse key order *)
 Example C13_example_pages_desc :
